@@ -332,6 +332,8 @@ func buildItems(tierName string, seed int64) []Item {
 			}
 		}
 	}
+	// 8. pipes of exactly 254 / 255 filters: protocol object alone and end to end (limit.go)
+	limitItems(add)
 	return items
 }
 
@@ -1081,6 +1083,10 @@ func main() {
 			runE2E(it, r)
 		case "script":
 			runScript(it)
+		case "stream":
+			runStreamLimit(it, r)
+		case "e2e-limit":
+			runLimitE2E(it, r)
 		}
 	}
 	core.Finish()
